@@ -157,6 +157,38 @@ func explorePaths(p *Prog, f *ssa.Function) []labelledPath {
 			if i := strings.Index(s, "("); i > 0 {
 				s = s[:i]
 			}
+			// an error built by a local closure (or package helper) that only
+			// calls one constructor is that constructor's error
+			for _, af := range f.AnonFuncs {
+				if af.Name() != s {
+					continue
+				}
+				ctor, same := "", true
+				eachInstr(af, func(ins ssa.Instruction) {
+					ret, ok := ins.(*ssa.Return)
+					if !ok || len(ret.Results) != 1 {
+						return
+					}
+					v := ret.Results[0]
+					if mi, ok := v.(*ssa.MakeInterface); ok {
+						v = mi.X
+					}
+					c, _ := callOf(v)
+					if c == nil || c.Common().StaticCallee() == nil {
+						same = false
+						return
+					}
+					n := c.Common().StaticCallee().Name()
+					if ctor == "" {
+						ctor = n
+					} else if ctor != n {
+						same = false
+					}
+				})
+				if same && ctor != "" {
+					s = ctor
+				}
+			}
 			lp.outcome = "error:" + canon(s)
 		}
 		paths = append(paths, lp)
